@@ -60,4 +60,27 @@ impl Inscription {
       ],
     )
   }
+
+  /// The chunk stream `brotli::Decompressor` yields for `value` when read the way
+  /// `properties_cbor` reads it (same buffer size): sizes of successive non-empty reads,
+  /// stopping at end of stream, at a read error (flag), or once more than `limit` bytes came out.
+  pub fn verif_brotli_chunk_sizes(value: &[u8], limit: usize) -> (Vec<usize>, bool) {
+    let mut decompressor = brotli::Decompressor::new(value, BROTLI_BUFFER_SIZE);
+    let mut buffer = vec![0; BROTLI_BUFFER_SIZE];
+    let mut sizes = Vec::new();
+    let mut total = 0usize;
+    loop {
+      match decompressor.read(&mut buffer) {
+        Err(_) => return (sizes, true),
+        Ok(0) => return (sizes, false),
+        Ok(n) => {
+          sizes.push(n);
+          total += n;
+          if total > limit {
+            return (sizes, false);
+          }
+        }
+      }
+    }
+  }
 }
